@@ -1,20 +1,24 @@
 (* EngineRefineDecomp.v -- T1: the multi-block loop decomp_loop (+ the overflow flush of
    decomperss) of RModel/Engine.v against the small-step presentation of the reference.
 
-   NOTE (missing fact).  decomp_refine_statement is proved here from its five premises PLUS
-   one more fact about readHeader:
-       readHeader_no_overflow : forall s, snd (readHeader s) <> EOutputOverflow.
-   readHeader_refine_body says nothing about the state when readHeader returns an error code
-   other than ENone / EEndInput, but EOutputOverflow is "non fatal" (isError = false), so the
-   statement asks for st_sim after it.  The fact is true (EOutputOverflow is produced only by
-   the block decoders) and is proved by code analysis in EngineRefineDecompErr.v; the
-   theorem with the fact as an explicit premise is decomp_refine_partial. *)
+   NOTE (missing fact, now proved).  The five premises of decomp_refine_statement do not
+   suffice as they stand: readHeader_refine_body says nothing about the state when
+   readHeader returns an error code other than ENone / EEndInput, but EOutputOverflow is
+   "non fatal" (isError = false), so the statement asks for st_sim after it.  The missing fact
+       readHeader_no_overflow : forall s, snd (readHeader s) <> EOutputOverflow
+   is true (that code is produced only by the block decoders) and is proved by code analysis
+   in EngineRefineDecompErr.v.  decomp_refine_partial has it as an explicit premise;
+   decomp_refine_final / decomp_refine use the proved fact.
+
+   decomp_refine_final takes the decodeHuffman premise in the form that is proved
+   (EngineRefineSpecBlock3.decodeHuffman_refine3_statement) and concludes
+   EngineRefineSpecFinal.decomp_body. *)
 From Coq Require Import List NArith ZArith Bool Relations Lia ZifyBool ZifyNat ZifyN.
 From Verif Require Import Bits Huffman HuffmanSpec Inflate InflateSpec InflateMono.
 From Verif Require Import Base EngineTables Engine EngineRefineSpec EngineRefineSpecBlock
-     EngineRefineSpecBlock2 EngineRefineSpecHdr EngineRefineSpecNeed EngineRefineSpecReach
-     EngineRefineSpecBuf EngineRefineSpecTop EngineRefineBits.
-From Verif Require Import EngineRefineReach.
+     EngineRefineSpecBlock2 EngineRefineSpecBlock3 EngineRefineSpecHdr EngineRefineSpecNeed EngineRefineSpecReach
+     EngineRefineSpecBuf EngineRefineSpecTop EngineRefineSpecFinal EngineRefineBits.
+From Verif Require Import EngineRefineReach EngineRefineDecompErr.
 Import ListNotations.
 Open Scope N_scope.
 
@@ -32,18 +36,20 @@ Lemma flush_ov_same s h i s2 h2 i2 :
 Proof.
   unfold flush_ov.
   destruct (writeOverflowLen (ov s) =? 0) eqn:E1; cbn [negb].
-  - destruct (copyOverflowLength (ov s) =? 0) eqn:E2; cbn [negb]; intros X Hi;
-      injection X as X1 X2 X3; subst.
-    + split; reflexivity.
-    + apply N.eqb_neq in E2. lia.
+  - destruct (copyOverflowLength (ov s) =? 0) eqn:E2; cbn [negb]; intros X Hi.
+    + pose proof (f_equal (fun x => fst (fst x)) X) as X1.
+      pose proof (f_equal (fun x => snd (fst x)) X) as X2. cbn [fst snd] in X1, X2.
+      subst. split; reflexivity.
+    + exfalso. apply (f_equal snd) in X. cbn [snd] in X. apply N.eqb_neq in E2. lia.
   - cbn [set_wov set_ov ov copyOverflowLength].
+    apply N.eqb_neq in E1.
     destruct (copyOverflowLength (ov s) =? 0) eqn:E2; cbn [negb]; intros X Hi;
-      injection X as X1 X2 X3; subst; apply N.eqb_neq in E1; lia.
+      exfalso; apply (f_equal snd) in X; cbn [snd] in X; lia.
 Qed.
 
 (* ---------------------------------------------------------------- small facts *)
-Lemma mkbs_eta S : mkbs (bl S) (bp S) = S.
-Proof. destruct S; reflexivity. Qed.
+Lemma mkbs_eta B : mkbs (bl B) (bp B) = B.
+Proof. destruct B; reflexivity. Qed.
 
 Lemma take1_bit s v r : take 1 s = Some (v, r) -> v = 0 \/ v = 1.
 Proof.
@@ -136,17 +142,478 @@ Proof.
   - apply rt_step, rs_eob. exact E.
 Qed.
 
-Lemma stored_rstar bf len : forall k n st S st' S',
-  N.of_nat k <= n -> stored k st S = (st', S', true) ->
-  rstar (CStored bf len n st S) (CStored bf len (n - N.of_nat k) st' S') /\
+Lemma stored_rstar bf len : forall k n st B st' B',
+  N.of_nat k <= n -> stored k st B = (st', B', true) ->
+  rstar (CStored bf len n st B) (CStored bf len (n - N.of_nat k) st' B') /\
   olen st' = olen st + N.of_nat k.
 Proof.
-  induction k as [|k IH]; intros n st S st' S' Hk E; cbn [stored] in E.
+  induction k as [|k IH]; intros n st B st' B' Hk E; cbn [stored] in E.
   - injection E as E1 E2; subst. replace (n - N.of_nat 0) with n by lia.
     split; [apply rt_refl | lia].
-  - destruct (take 8 S) as [[b S1]|] eqn:E8; [|discriminate].
+  - destruct (take 8 B) as [[b B1]|] eqn:E8; [|discriminate].
     apply (IH (n - 1)) in E; [|lia]. destruct E as [R L]. split.
     + eapply rt_trans; [apply rt_step, rs_byte; [lia | exact E8]|].
       replace (n - N.of_nat (S k)) with (n - 1 - N.of_nat k) by lia. exact R.
     + rewrite L. unfold push; cbn [olen]. lia.
 Qed.
+
+(* ---------------------------------------------------------------- decomp_loop, one iteration *)
+Definition loop_body (f : nat) (s : inflate) (out : arr) (idx : N) : inflate * arr * N * ierr :=
+  let '(s, out, idx, err) :=
+    if phase s =? phaseLitBlock then decodeLiteralBlock s out idx
+    else decodeHuffman s out idx in
+  match err with
+  | ENone => decomp_loop f s out idx
+  | _ => (s, out, idx, err)
+  end.
+
+Lemma dl_end f s out w : phase s = phaseStreamEnd -> decomp_loop (S f) s out w = (s, out, w, ENone).
+Proof. intros H. cbn [decomp_loop]. rewrite H. reflexivity. Qed.
+
+Lemma dl_block f s out w :
+  phase s = phaseNewBlock \/ phase s = phaseDecodingHeader ->
+  decomp_loop (S f) s out w =
+  let '(s1, err) := readHeader s in
+  match err with
+  | ENone => loop_body f s1 out w
+  | _ => (s1, out, w, err)
+  end.
+Proof. intros [H|H]; cbn [decomp_loop]; rewrite H; reflexivity. Qed.
+
+Lemma dl_body f s out w :
+  phase s = phaseHeaderDecoded \/ phase s = phaseLitBlock ->
+  decomp_loop (S f) s out w = loop_body f s out w.
+Proof.
+  intros H.
+  assert (E1 : (phase s =? phaseStreamEnd) = false) by (destruct H as [H|H]; rewrite H; reflexivity).
+  assert (E2 : (phase s =? phaseNewBlock) || (phase s =? phaseDecodingHeader) = false)
+    by (destruct H as [H|H]; rewrite H; reflexivity).
+  cbn [decomp_loop]. rewrite E1, E2. reflexivity.
+Qed.
+
+Definition blockish (c : rcfg) : Prop :=
+  match c with CHuff _ _ _ _ _ | CStored _ _ _ _ _ => True | _ => False end.
+
+Section Decomp.
+Hypothesis HRH : readHeader_refine_body.
+Hypothesis HRN : readHeader_need_body.
+Hypothesis HDH : decodeHuffman_refine3_statement.
+Hypothesis HLB : decodeLiteralBlock_refine_statement.
+Hypothesis HRI : reach_inv_statement.
+Hypothesis HNO : forall s, snd (readHeader s) <> EOutputOverflow.
+Variable data : list N.
+Variable u : list N.
+Local Notation U := (bits_of_bytes u).
+
+(* what the statement says about a result of the loop, with the output claim in terms of olen *)
+Definition loop_post (s : inflate) (w : N) (c : rcfg) (r : inflate * arr * N * ierr) : Prop :=
+  let '(s', out', w', err) := r in
+  let '(s2, out2, w2) := flush_ov s' out' w' in
+  exists c',
+    rstar c c' /\ win_rel out2 w2 (cfg_st c') /\ w <= w2 /\ w2 <= outLen + 261 /\
+    olen (cfg_st c') = olen (cfg_st c) + (w2 - w) /\
+    inputNil s2 = inputNil s /\
+    (err <> EPanic -> err <> EFuel -> isError err = false ->
+       st_sim s2 c' U /\
+       qbytes s2 <= qbytes s /\
+       (err = ENone \/ err = EEndInput \/ err = EOutputOverflow) /\
+       (err = ENone -> phase s2 = phaseStreamEnd) /\
+       (phase s2 = phaseDecodingHeader ->
+          err = EEndInput /\ r_in (rd s2) = [] /\ r_inlen (rd s2) = 0)).
+
+(* what a block decoder call gives *)
+Definition blk_post (s : inflate) (w : N) (c : rcfg) (r : inflate * arr * N * ierr) : Prop :=
+  let '(s', out', w', err) := r in
+  let '(s2, out2, w2) := flush_ov s' out' w' in
+  exists c',
+    rstar c c' /\ win_rel out2 w2 (cfg_st c') /\
+    olen (cfg_st c') = olen (cfg_st c) + (w2 - w) /\
+    w <= w' /\ w' <= outLen /\ w' <= w2 /\ w2 <= outLen + 261 /\
+    inputNil s2 = inputNil s /\
+    (err = ENone -> s2 = s' /\ out2 = out' /\ w2 = w') /\
+    (err <> EPanic -> err <> EFuel -> isError err = false ->
+       st_sim s2 c' U /\
+       qbytes s2 <= qbytes s /\
+       (err = ENone \/ err = EEndInput \/ err = EOutputOverflow) /\
+       phase s2 <> phaseDecodingHeader).
+
+Lemma loop_post_trans s w c s1 w1 c1 r :
+  rstar c c1 -> olen (cfg_st c1) = olen (cfg_st c) + (w1 - w) -> w <= w1 ->
+  inputNil s1 = inputNil s -> qbytes s1 <= qbytes s ->
+  loop_post s1 w1 c1 r -> loop_post s w c r.
+Proof.
+  destruct r as [[[s' out'] w'] err]. unfold loop_post.
+  destruct (flush_ov s' out' w') as [[s2 out2] w2].
+  intros R L W I Q [c' [R' [WR [W1 [W2 [L' [I' NF]]]]]]].
+  exists c'. split; [eapply rt_trans; eassumption|]. split; [exact WR|].
+  split; [lia|]. split; [exact W2|]. split; [lia|]. split; [congruence|].
+  intros A B C. destruct (NF A B C) as [S1 [Q1 [T [P1 P2]]]].
+  split; [exact S1|]. split; [lia|]. split; [exact T|]. split; [exact P1 | exact P2].
+Qed.
+
+Lemma loop_post_ret s s1 out w c err :
+  ov s1 = ov0 -> inputNil s1 = inputNil s -> win_rel out w (cfg_st c) -> w <= outLen ->
+  (err <> EPanic -> err <> EFuel -> isError err = false ->
+     st_sim s1 c U /\ qbytes s1 <= qbytes s /\
+     (err = ENone \/ err = EEndInput \/ err = EOutputOverflow) /\
+     (err = ENone -> phase s1 = phaseStreamEnd) /\
+     (phase s1 = phaseDecodingHeader ->
+        err = EEndInput /\ r_in (rd s1) = [] /\ r_inlen (rd s1) = 0)) ->
+  loop_post s w c (s1, out, w, err).
+Proof.
+  intros OV I WR WL NF. unfold loop_post. rewrite (flush_ov_id _ _ _ OV).
+  exists c. split; [apply rt_refl|]. split; [exact WR|]. split; [lia|].
+  split; [unfold outLen in *; lia|]. split; [lia|]. split; [exact I | exact NF].
+Qed.
+
+(* ---------------------------------------------------------------- readHeader *)
+Lemma hdr_align st S0 s :
+  reach data (CBlock st S0) -> (0 <= r_len (rd s))%Z -> bl S0 = lbits s ++ U ->
+  ((Z.of_N (bp S0) + r_len (rd s)) mod 8 = 0)%Z.
+Proof.
+  intros R NN BL.
+  destruct (HRI data _ R) as [_ [_ [_ [[pre [E1 E2]] _]]]]. cbn [cfg_bs] in E1, E2.
+  pose proof (f_equal (@length bool) E1) as L.
+  rewrite bits_of_bytes_length, app_length, BL, app_length in L. unfold lbits in L.
+  rewrite br_bits_length, bits_of_bytes_length in L. cbn [lrd r_len r_in] in L.
+  rewrite E2. apply Z.mod_divide; [lia|].
+  exists (Z.of_nat (length data) - Z.of_nat (length (headerBuffer s ++ r_in (rd s)))
+          - Z.of_nat (length u))%Z.
+  unfold byte in *. lia.
+Qed.
+
+Lemma hdr_step st S0 s :
+  reach data (CBlock st S0) -> st_sim s (CBlock st S0) U ->
+  let '(s1, e1) := readHeader s in
+  inputNil s1 = inputNil s /\ ov s1 = ov0 /\ e1 <> EOutputOverflow /\
+  (e1 = ENone ->
+     qbytes s1 <= qbytes s /\
+     exists c1, rstep (CBlock st S0) c1 /\ cfg_st c1 = st /\ st_sim s1 c1 U /\ blockish c1) /\
+  (e1 = EEndInput ->
+     st_sim s1 (CBlock st S0) U /\ qbytes s1 <= qbytes s /\ phase s1 = phaseDecodingHeader /\
+     r_in (rd s1) = [] /\ r_inlen (rd s1) = 0).
+Proof.
+  intros R [OV [PH [OK [OKS [ND BL]]]]].
+  assert (AL : ((Z.of_N (bp S0) + r_len (rd s)) mod 8 = 0)%Z).
+  { destruct OK as [_ [NN _]]. eapply hdr_align; eassumption. }
+  pose proof (HRH s U (bp S0) OK OKS AL) as X.
+  pose proof (HRN s (bp S0) OK OKS AL ND) as Y.
+  pose proof (HNO s) as Z.
+  destruct (readHeader s) as [s1 e1]. cbn [snd] in Z.
+  destruct X as [[F1 [F2 F3]] [XN XE]]. destruct Y as [YE YN].
+  split; [exact F1|]. split; [congruence|]. split; [exact Z|]. split.
+  - intros ->. destruct (XN eq_refl) as [W1 [NN1 [HB1 [HBD1 HR]]]].
+    split; [apply YN; reflexivity|].
+    rewrite <- BL, mkbs_eta in HR.
+    destruct HR as [bf [s1' [bt [s2 [T1 [T2 [BF D]]]]]]].
+    pose proof (take1_bit _ _ _ T1) as BFB.
+    assert (OV1 : ov s1 = ov0) by congruence.
+    destruct D as [[-> [P [lt [dt [FT [TF B2]]]]]]
+                  | [[-> [P [lt [dt [s3 [DH [TF B2]]]]]]]
+                  | [-> [P [len [s4 [nlen [s5 [T3 [T4 [LN [LBL [B2 M8]]]]]]]]]]]]].
+    + exists (CHuff bf lt dt st s2). split; [eapply rs_fixed; eassumption|].
+      split; [reflexivity|]. split; [|exact I]. unfold st_sim.
+      repeat match goal with |- _ /\ _ => split end; assumption.
+    + exists (CHuff bf lt dt st s3). split; [eapply rs_dyn; eassumption|].
+      split; [reflexivity|]. split; [|exact I]. unfold st_sim.
+      repeat match goal with |- _ /\ _ => split end; assumption.
+    + exists (CStored bf len len st s5). split; [eapply rs_stored; eassumption|].
+      split; [reflexivity|]. split; [|exact I]. unfold st_sim.
+      repeat match goal with |- _ /\ _ => split end; assumption.
+  - intros ->. destruct (XE eq_refl) as [OK1 [OKS1 [P1 [LB1 [RI [RL [RB RLEN]]]]]]].
+    split.
+    + unfold st_sim. split; [congruence|]. split; [right; exact P1|]. split; [exact OK1|].
+      split; [exact OKS1|]. split; [apply YE; reflexivity|]. rewrite LB1. exact BL.
+    + split; [|split; [exact P1|split; [exact RI|exact RL]]].
+      unfold qbytes. rewrite RLEN, RL. lia.
+Qed.
+
+(* ---------------------------------------------------------------- the state after a block *)
+Lemma sim_next s bf st' bs' :
+  ov s = ov0 -> bfinal s = bf -> 
+  phase s = (if bf =? 1 then phaseStreamEnd else phaseNewBlock) ->
+  br_wf (rd s) -> (0 <= r_len (rd s))%Z -> headerBuffer s = [] -> headerBuffered s = 0 ->
+  bl bs' = br_bits (rd s) ++ U ->
+  st_sim s (next_block bf st' bs') U.
+Proof.
+  intros OV BF PH WF NN HB HBD BL. unfold next_block.
+  destruct (bf =? 1) eqn:EB; unfold st_sim.
+  - split; [exact OV|]. split; [exact PH|]. split; [exact WF|]. split; [exact NN|].
+    split; [exact HB | exact BL].
+  - split; [exact OV|]. split; [left; exact PH|].
+    split.
+    { unfold hdr_ok. rewrite (lrd_rd s HB HBD). split; [exact WF|]. split; [exact NN|].
+      rewrite HB, HBD. split; [reflexivity|]. split; [lia|]. split; [left; exact PH|].
+      intros _. reflexivity. }
+    split; [unfold hdr_ok_staged; rewrite PH; discriminate|].
+    split; [unfold hdr_need; rewrite PH; discriminate|].
+    rewrite (lbits_rd s HB HBD). exact BL.
+Qed.
+
+(* ---------------------------------------------------------------- decodeHuffman *)
+Lemma huff_step bf lt dt st S0 s out w :
+  st_sim s (CHuff bf lt dt st S0) U -> win_rel out w st -> w <= outLen ->
+  blk_post s w (CHuff bf lt dt st S0) (decodeHuffman s out w).
+Proof.
+  intros [OV [PH [BF [BFB [TF [WF [NN [HB [HBD BL]]]]]]]]] WR WL.
+  assert (BFS : bfinal s = 0 \/ bfinal s = 1) by (rewrite BF; exact BFB).
+  assert (WO0 : writeOverflowLen (ov s) = 0) by (rewrite OV; reflexivity).
+  assert (WL0 : writeOverflowLits (ov s) = 0) by (rewrite OV; reflexivity).
+  pose proof (HDH s out w lt dt st U (bp S0) WF NN PH BFS WO0 WL0 TF WR WL) as X.
+  unfold blk_post. destruct (decodeHuffman s out w) as [[[s' out'] w'] err].
+  destruct (flush_ov s' out' w') as [[s2 out2] w2] eqn:FL.
+  destruct X as [st' [bs' [ended [RUN [WR2 [OL [W1 [W2 [W3 [W4 [WO [SS1 [LB1 [SS2 [RD2 [PH2
+                 [LB2 [OV2 NF]]]]]]]]]]]]]]]]]].
+  rewrite <- BL, mkbs_eta in RUN. apply (sym_run_rstar bf) in RUN.
+  set (c' := if ended then next_block bf st' bs' else CHuff bf lt dt st' bs') in *.
+  assert (CS : cfg_st c' = st') by (unfold c'; destruct ended; [apply next_st | reflexivity]).
+  assert (CB : cfg_bs c' = bs') by (unfold c'; destruct ended; [apply next_bs | reflexivity]).
+  destruct SS1 as [I1 [TB1 [BF1 [HBD1 [HB1 _]]]]]. destruct SS2 as [I2 [TB2 [BF2 [HBD2 [HB2 _]]]]].
+  exists c'. split; [exact RUN|]. rewrite CS. split; [exact WR2|]. cbn [cfg_st].
+  split; [exact OL|]. split; [exact W1|]. split; [exact W2|]. split; [exact W3|].
+  split; [exact W4|]. split; [congruence|]. split.
+  - intros ->. assert (E : w2 = w').
+    { destruct (N.lt_ge_cases w' w2) as [Hlt|Hge]; [|lia].
+      destruct (WO Hlt) as [Q|[Q|[Q|Q]]]; discriminate. }
+    destruct (flush_ov_same _ _ _ _ _ _ FL E) as [E1 E2]. auto.
+  - intros A B C. destruct (NF A B C) as [WF' [NN' [BL' [PH' [EN [EE [TRI EO]]]]]]].
+    assert (WF2 : br_wf (rd s2)) by (rewrite RD2; exact WF').
+    assert (NN2 : (0 <= r_len (rd s2))%Z) by (rewrite RD2; exact NN').
+    assert (BL2 : bl bs' = br_bits (rd s2) ++ U) by (rewrite RD2; exact BL').
+    assert (HB' : headerBuffer s2 = []) by congruence.
+    assert (HBD' : headerBuffered s2 = 0) by congruence.
+    assert (BF' : bfinal s2 = bf) by congruence.
+    split; [|split; [|split; [exact TRI|]]].
+    + unfold c'. destruct ended.
+      * apply sim_next; try assumption. rewrite PH2, PH', BF. reflexivity.
+      * unfold st_sim. split; [exact OV2|]. split; [rewrite PH2; exact PH'|].
+        split; [exact BF'|]. split; [exact BFB|]. split; [rewrite TB2, TB1; exact TF|].
+        repeat match goal with |- _ /\ _ => split end; assumption.
+    + apply qbytes_le; try assumption.
+      pose proof (rstar_len _ _ RUN) as L. rewrite CB in L. cbn [cfg_bs] in L.
+      rewrite BL2, BL, !app_length in L. lia.
+    + rewrite PH2, PH'. destruct ended; [destruct (bfinal s =? 1)|]; discriminate.
+Qed.
+
+(* ---------------------------------------------------------------- decodeLiteralBlock *)
+Lemma stored_step bf len n st S0 s out w :
+  reach data (CStored bf len n st S0) ->
+  st_sim s (CStored bf len n st S0) U -> win_rel out w st -> w <= outLen ->
+  blk_post s w (CStored bf len n st S0) (decodeLiteralBlock s out w).
+Proof.
+  intros R [OV [PH [BF [BFB [LBL [WF [NN [M8 [HB [HBD BL]]]]]]]]]] WR WL.
+  destruct (HRI data _ R) as [_ [_ [_ [_ [NL [L64 _]]]]]].
+  assert (BFS : bfinal s = 0 \/ bfinal s = 1) by (rewrite BF; exact BFB).
+  assert (LT : litBlockLength s < 65536) by (rewrite LBL; lia).
+  pose proof (HLB s out w st U (bp S0) WF NN M8 PH BFS WR WL LT) as X.
+  unfold blk_post. destruct (decodeLiteralBlock s out w) as [[[s' out'] w'] err].
+  destruct X as [k [st' [bs' [KL [LB' [W' [WL' [ST [WR' [SS [OV' [E5 NF]]]]]]]]]]]].
+  assert (OV1 : ov s' = ov0) by congruence.
+  rewrite (flush_ov_id _ _ _ OV1).
+  rewrite <- BL, mkbs_eta in ST. rewrite LBL in KL, LB'.
+  destruct (stored_rstar bf len (N.to_nat k) n st S0 st' bs' ltac:(lia) ST) as [RS OL].
+  rewrite N2Nat.id in RS, OL.
+  destruct SS as [I1 [TB1 [BF1 [HBD1 [HB1 _]]]]].
+  assert (HB' : headerBuffer s' = []) by congruence.
+  assert (HBD' : headerBuffered s' = 0) by congruence.
+  assert (BF' : bfinal s' = bf) by congruence.
+  assert (QB : br_wf (rd s') -> (0 <= r_len (rd s'))%Z -> bl bs' = br_bits (rd s') ++ U ->
+               qbytes s' <= qbytes s).
+  { intros WF' NN' BL'. apply qbytes_le; try assumption.
+    pose proof (rstar_len _ _ RS) as L. cbn [cfg_bs] in L.
+    rewrite BL', BL, !app_length in L. lia. }
+  (* the block is not complete *)
+  assert (NE : err <> ENone ->
+    exists c',
+      rstar (CStored bf len n st S0) c' /\ win_rel out' w' (cfg_st c') /\
+      olen (cfg_st c') = olen (cfg_st (CStored bf len n st S0)) + (w' - w) /\
+      w <= w' /\ w' <= outLen /\ w' <= w' /\ w' <= outLen + 261 /\
+      inputNil s' = inputNil s /\
+      (err = ENone -> s' = s' /\ out' = out' /\ w' = w') /\
+      (err <> EPanic -> err <> EFuel -> isError err = false ->
+         st_sim s' c' U /\ qbytes s' <= qbytes s /\
+         (err = ENone \/ err = EEndInput \/ err = EOutputOverflow) /\
+         phase s' <> phaseDecodingHeader)).
+  { intros N0. exists (CStored bf len (n - k) st' bs'). cbn [cfg_st].
+    split; [exact RS|]. split; [exact WR'|]. split; [lia|]. split; [lia|].
+    split; [exact WL'|]. split; [lia|]. split; [unfold outLen in *; lia|].
+    split; [exact I1|]. split; [intros; contradiction|].
+    intros A B C. destruct (NF A B) as [WF' [NN' [M8' [BL' [EN [ENN [EE EO]]]]]]].
+    split.
+    { unfold st_sim. split; [exact OV1|]. split; [apply ENN; exact N0|].
+      repeat match goal with |- _ /\ _ => split end; assumption. }
+    split; [apply QB; assumption|].
+    split.
+    { destruct E5 as [Q|[Q|[Q|[Q|Q]]]]; try contradiction; auto. }
+    rewrite (ENN N0). discriminate. }
+  destruct err; try (apply NE; discriminate).
+  (* ENone: the block is complete *)
+  destruct (NF ltac:(discriminate) ltac:(discriminate)) as [WF' [NN' [M8' [BL' [EN _]]]]].
+  destruct (EN eq_refl) as [KN PH'].
+  replace (n - k) with 0 in RS by lia.
+  exists (next_block bf (sync_upd bf len st' bs') bs'). rewrite next_st, sync_upd_olen.
+  cbn [cfg_st].
+  split; [eapply rt_trans; [exact RS | apply rt_step, rs_stored_end]|].
+  split; [apply win_rel_sync; exact WR'|]. split; [lia|]. split; [lia|].
+  split; [exact WL'|]. split; [lia|]. split; [unfold outLen in *; lia|].
+  split; [exact I1|]. split; [auto|].
+  intros _ _ _. split; [|split; [apply QB; assumption|split; [auto|]]].
+  - apply sim_next; try assumption. rewrite PH', BF. reflexivity.
+  - rewrite PH'. destruct (bfinal s =? 1); discriminate.
+Qed.
+
+(* ---------------------------------------------------------------- the loop *)
+Definition P (f : nat) : Prop :=
+  forall s out w c,
+    reach data c -> st_sim s c U -> win_rel out w (cfg_st c) -> w <= outLen ->
+    loop_post s w c (decomp_loop f s out w).
+
+Lemma blk_loop f s w c r :
+  P f -> reach data c -> blk_post s w c r ->
+  loop_post s w c
+    (let '(s', out', w', err) := r in
+     match err with
+     | ENone => decomp_loop f s' out' w'
+     | _ => (s', out', w', err)
+     end).
+Proof.
+  intros IH R B. destruct r as [[[s' out'] w'] err]. unfold blk_post in B.
+  destruct (flush_ov s' out' w') as [[s2 out2] w2] eqn:FL.
+  destruct B as [c' [RS [WR [OL [W1 [W2 [W3 [W4 [IN [EN NF]]]]]]]]]].
+  assert (NE : err <> ENone -> loop_post s w c (s', out', w', err)).
+  { intros N0. unfold loop_post. rewrite FL. exists c'.
+    split; [exact RS|]. split; [exact WR|]. split; [lia|]. split; [exact W4|].
+    split; [exact OL|]. split; [exact IN|].
+    intros A B C. destruct (NF A B C) as [SIM [Q [T PD]]].
+    split; [exact SIM|]. split; [exact Q|]. split; [exact T|].
+    split; intros; contradiction. }
+  destruct err; try (apply NE; discriminate).
+  destruct (EN eq_refl) as [E1 [E2 E3]]. subst s2 out2 w2.
+  destruct (NF ltac:(discriminate) ltac:(discriminate) eq_refl) as [SIM [Q _]].
+  apply (loop_post_trans s w c s' w' c'); try assumption.
+  apply IH; try assumption.
+  eapply rt_trans; [exact R | exact RS].
+Qed.
+
+Lemma body_ok f s out w c :
+  P f -> reach data c -> st_sim s c U -> win_rel out w (cfg_st c) -> w <= outLen ->
+  blockish c -> loop_post s w c (loop_body f s out w).
+Proof.
+  intros IH R SIM WR WL B. unfold loop_body.
+  destruct c as [st S0 | bf lt dt st S0 | bf len n st S0 | st S0]; try contradiction;
+    cbn [cfg_st] in WR.
+  - assert (PH : phase s = phaseHeaderDecoded) by (destruct SIM as [_ [PH _]]; exact PH).
+    rewrite PH. change (phaseHeaderDecoded =? phaseLitBlock) with false. cbv iota.
+    apply (blk_loop f s w _ (decodeHuffman s out w)); [exact IH | exact R|].
+    apply huff_step; assumption.
+  - assert (PH : phase s = phaseLitBlock) by (destruct SIM as [_ [PH _]]; exact PH).
+    rewrite PH. change (phaseLitBlock =? phaseLitBlock) with true. cbv iota.
+    apply (blk_loop f s w _ (decodeLiteralBlock s out w)); [exact IH | exact R|].
+    apply stored_step; assumption.
+Qed.
+
+Lemma loop_ok : forall f, P f.
+Proof.
+  induction f as [|f IH]; intros s out w c R SIM WR WL.
+  - cbn [decomp_loop]. apply loop_post_ret; try assumption; try reflexivity.
+    + destruct SIM as [OV _]; exact OV.
+    + intros _ A. contradiction.
+  - destruct c as [st S0 | bf lt dt st S0 | bf len n st S0 | st S0].
+    + (* block boundary: readHeader *)
+      assert (PH : phase s = phaseNewBlock \/ phase s = phaseDecodingHeader)
+        by (destruct SIM as [_ [PH _]]; exact PH).
+      rewrite (dl_block f s out w PH).
+      pose proof (hdr_step st S0 s R SIM) as X.
+      destruct (readHeader s) as [s1 e1].
+      destruct X as [I1 [OV1 [NO [XN XE]]]].
+      destruct e1.
+      * destruct (XN eq_refl) as [Q [c1 [RS [CS [SIM1 B1]]]]].
+        apply (loop_post_trans s w _ s1 w c1); try assumption.
+        -- apply rt_step; exact RS.
+        -- rewrite CS. cbn [cfg_st]. lia.
+        -- lia.
+        -- apply body_ok; try assumption.
+           ++ eapply rt_trans; [exact R | apply rt_step; exact RS].
+           ++ rewrite CS. exact WR.
+      * destruct (XE eq_refl) as [SIM1 [Q [P1 [RI RL]]]].
+        apply loop_post_ret; try assumption.
+        intros _ _ _. split; [exact SIM1|]. split; [exact Q|]. split; [auto|].
+        split; [discriminate|]. intros _. auto.
+      * contradiction.
+      * apply loop_post_ret; try assumption. intros _ _ A. discriminate.
+      * apply loop_post_ret; try assumption. intros _ _ A. discriminate.
+      * apply loop_post_ret; try assumption. intros _ _ A. discriminate.
+      * apply loop_post_ret; try assumption. intros A. contradiction.
+      * apply loop_post_ret; try assumption. intros _ A. contradiction.
+    + assert (PH : phase s = phaseHeaderDecoded) by (destruct SIM as [_ [PH _]]; exact PH).
+      rewrite (dl_body f s out w (or_introl PH)).
+      apply body_ok; try assumption. exact I.
+    + assert (PH : phase s = phaseLitBlock) by (destruct SIM as [_ [PH _]]; exact PH).
+      rewrite (dl_body f s out w (or_intror PH)).
+      apply body_ok; try assumption. exact I.
+    + assert (PH : phase s = phaseStreamEnd) by (destruct SIM as [_ [PH _]]; exact PH).
+      rewrite (dl_end f s out w PH).
+      apply loop_post_ret; try assumption; try reflexivity.
+      * destruct SIM as [OV _]; exact OV.
+      * intros _ _ _. split; [exact SIM|]. split; [lia|]. split; [auto|].
+        split; [intros _; exact PH|]. rewrite PH. discriminate.
+Qed.
+
+End Decomp.
+
+(* ---------------------------------------------------------------- the theorems *)
+(* with the missing fact about readHeader as an explicit premise *)
+Theorem decomp_refine_partial :
+  readHeader_refine_body -> readHeader_need_body ->
+  decodeHuffman_refine3_statement -> decodeLiteralBlock_refine_statement ->
+  reach_inv_statement ->
+  (forall s, snd (readHeader s) <> EOutputOverflow) ->
+  decomp_body.
+Proof.
+  intros HRH HRN HDH HLB HRI HNO data fuel s out w c u FA R SIM WR WL.
+  pose proof (loop_ok HRH HRN HDH HLB HRI HNO data u fuel s out w c R SIM WR WL) as X.
+  unfold loop_post in X.
+  destruct (decomp_loop fuel s out w) as [[[s' out'] w'] err].
+  destruct (flush_ov s' out' w') as [[s2 out2] w2].
+  destruct X as [c' [RS [WR' [W1 [W2 [OL [IN NF]]]]]]].
+  assert (R' : reach data c') by (eapply rt_trans; [exact R | exact RS]).
+  exists c'. split; [exact R'|]. split; [exact WR'|]. split; [exact W1|]. split; [exact W2|].
+  split; [|split; [exact IN | exact NF]].
+  destruct (rstar_rout _ _ RS) as [v E]. exists v. split; [exact E|].
+  destruct (HRI data c R) as [_ [L1 _]]. destruct (HRI data c' R') as [_ [L2 _]].
+  cbv zeta in L1, L2. rewrite E, app_length in L2. lia.
+Qed.
+
+(* the form asked for: the decodeHuffman premise as it is proved (refine3) *)
+Theorem decomp_refine_final :
+  readHeader_refine_body -> readHeader_need_body ->
+  decodeHuffman_refine3_statement -> decodeLiteralBlock_refine_statement ->
+  reach_inv_statement ->
+  decomp_body.
+Proof.
+  intros HRH HRN HDH HLB HRI.
+  exact (decomp_refine_partial HRH HRN HDH HLB HRI readHeader_no_overflow).
+Qed.
+
+(* the statement of EngineRefineSpecTop.v (its decodeHuffman premise, refine2, is stronger
+   than refine3) *)
+Theorem decomp_refine : decomp_refine_statement.
+Proof.
+  intros HRH HRN HDH2 HLB HRI.
+  apply (decomp_refine_final HRH HRN); try assumption.
+  intros s out w lt dt st e p A B C D E _ F G H.
+  exact (HDH2 s out w lt dt st e p A B C D E F G H).
+Qed.
+
+Theorem decomperss_flush : decomperss_flush_statement.
+Proof.
+  intros f. unfold decomperss, flush_ov.
+  destruct (decomp_loop big_fuel (state f) (hist f) (writePos f)) as [[[s h] idx] err].
+  destruct (negb (writeOverflowLen (ov s) =? 0)); cbv beta iota zeta;
+    match goal with |- context [if ?b then _ else _] => destruct b end; reflexivity.
+Qed.
+
+Print Assumptions decomp_refine_partial.
+Print Assumptions decomp_refine_final.
+Print Assumptions decomp_refine.
+Print Assumptions decomperss_flush.
